@@ -2,7 +2,9 @@
 model NV.Isa.Asm (byte-exact text, identical assembly result) and, independently of the model, the property itself on the
 real tools:  asm(disasm(m)) has the same strings, function table and code as m.
 
-A failing round trip on the real tools is attributed to the conjunct(s) of the theorem's hypothesis wf_moduleb that the
+The model describes the tools after the fix: commits of 2026-09-30 (quote-aware comment stripping, comment newline escape,
+NUL escape, patch fix-up, per-function label table, patch-table overflow as error, denormal floats, labels only on
+instruction boundaries).  A failing round trip on the real tools is attributed to the conjunct(s) of the theorem's hypothesis wf_moduleb that the
 module violates (evaluated by the extracted Coq function, command `wfm`): key  c11:text:not-wf:<conjunct>.  A module
 that satisfies the hypothesis and still fails, or any disagreement between model and tools, is a violation."""
 import os, re, json, hashlib, struct, collections, shutil, time
@@ -459,8 +461,7 @@ def model_cmd(ref):
     return ['bash', '-c', 'ulimit -s unlimited 2>/dev/null || ulimit -s 1000000; exec "$0"', ref]
 
 
-CAUSES = ['str_nul', 'str_nl', 'str_comment', 'str_len', 'str_bytes', 'distinct', 'fn_fields', 'fn_names', 'layout', 'code_bytes', 'code_decodes',
-          'code_targets', 'code_boundaries', 'code_patches', 'code_f64', 'label_total', 'entry']
+CAUSES = ['str_len', 'str_bytes', 'distinct', 'fn_fields', 'fn_names', 'layout', 'code_bytes', 'code_decodes', 'code_patches', 'code_f64', 'entry']
 
 
 def tiles(m):
@@ -619,7 +620,9 @@ def text_half(ck, b, ref, probe):
     fdist = collections.Counter()
     for p, a, m in zip(pats, fi, fm):
         fa = a.split()
-        got = fa[2] if (fa[3] == '0' and int(fa[4]) == len(fa[1]) // 2) else 'rej'
+        # parse_double: refused when nothing was consumed or on overflow (errno set and result infinite)
+        isinf = (int(fa[2], 16) & 0x7fffffffffffffff) == 0x7ff0000000000000
+        got = fa[2] if (int(fa[4]) == len(fa[1]) // 2 and not (fa[3] != '0' and isinf)) else 'rej'
         ck.count(('f64', p), nontrivial=True)
         if [fa[1], got] != m.split()[1:3]:
             ck.fail('c11:text:f64-oracle:%x' % p, 'libc printf/strtod and the OCaml instance of the oracle differ on %x: %s vs %s' % (p, a, m),
